@@ -11,12 +11,13 @@ rationals (`n` or `n/d`).
           | "ivec" n i*                             index vector number k
           | "expr" tok*                             expression number k, prefix form:
                a<k> | x<k> m iv*  | c<rat> | add e e | sub e e | mul e e | div e e | neg e | noalias e
+               | max e e | min e e | abs e
                | spread d n a<k> | outerL a<k> nb | outerR a<k> na
   head   := "assign" t e tmpSid tmpG W | "assignfx" t e | "bcasta" t c | "bcaste" t e tmpview
           | "evalcopy" t e tmpSid tmpG W
           | "where" t neg ea eb e tmpSid tmpG W | "eitheror" t ea eb ec ed tmpSid tmpG1 tmpG2 W
           | "idx" t m iv* e tmpSid tmpG W | "reduce" f sc tot e rank dim*
-          | "rdim" f tot e rank dim* d res | "scalar" t e
+          | "rdim" f tot e rank dim* d res | "scalar" t e | "diag" e d0 d1 k res
   output := "T" stmt;stmt;… "| N" cells of the target's allocation     (or `bad-op`)
 -/
 open Adept Adept.Tape Adept.ArrayAD
@@ -48,12 +49,14 @@ def viewRef (env : Env) (t : String) : Option View :=
 partial def parseExpr (env : Env) : List String → Option (AExpr Rat × List String)
   | [] => none
   | t :: ts =>
-    if t == "add" || t == "sub" || t == "mul" || t == "div" then do
+    if t == "add" || t == "sub" || t == "mul" || t == "div" || t == "max" || t == "min" then do
       let (a, r1) ← parseExpr env ts
       let (b, r2) ← parseExpr env r1
       pure ((if t == "add" then AExpr.add a b else if t == "sub" then AExpr.sub a b
-             else if t == "mul" then AExpr.mul a b else AExpr.div a b), r2)
+             else if t == "mul" then AExpr.mul a b else if t == "div" then AExpr.div a b
+             else if t == "max" then AExpr.max a b else AExpr.min a b), r2)
     else if t == "neg" then do let (a, r) ← parseExpr env ts; pure (AExpr.neg a, r)
+    else if t == "abs" then do let (a, r) ← parseExpr env ts; pure (AExpr.abs a, r)
     else if t == "noalias" then do let (a, r) ← parseExpr env ts; pure (AExpr.noalias a, r)
     else if t == "spread" then
       match ts with
@@ -173,8 +176,11 @@ def run (env : Env) (head : List String) : Option String :=
     | [dim, res] => do
       let dim ← dim.toNat?; let res ← vRef env res
       if d.length ≠ rank || dim ≥ rank then none else
-      pure (output (reduceDim f (tot.sid, tot.off) e d.reverse (rank - 1 - dim) res s0) res.sid)
+      pure (output (reduceDimLit f (tot.sid, tot.off) e d.reverse (rank - 1 - dim) res s0) res.sid)
     | _ => none
+  | ["diag", e, d0, d1, k, res] => do
+    let e ← exprRef env e; let d0 ← d0.toNat?; let d1 ← d1.toNat?; let k ← k.toInt?; let res ← vRef env res
+    pure (output (diagVector e d0 d1 k res s0) res.sid)
   | ["scalar", t, e] => do
     let t ← vRef env t; let e ← exprRef env e
     pure (output (elemStep s0 (t.sid, t.off) (e.at [])) t.sid)
